@@ -506,6 +506,8 @@ func pools(rhs any, full bool) (K, I, AB, P []any) {
 		}
 	}
 	K = append(K, "nosuch")
+	// the name of a field some decoders add and remove again (trees.go: rm)
+	K = append(K, "placeholder")
 	if full {
 		K = append(K, "a", "")
 	}
